@@ -182,6 +182,8 @@ func DependsOnVia(chain []*ssa.Call, v ssa.Value, enter func(*ssa.Function) bool
 			return rec(x.X, chain, depth+1)
 		case *ssa.Call:
 			if g := x.Call.StaticCallee(); g != nil && enter != nil && enter(g) && g.Blocks != nil && len(chain) < 6 {
+				// an entered callee: the result depends on what the callee returns
+				// (its parameters stand for the arguments), not on every argument
 				sub := append(append([]*ssa.Call(nil), chain...), x)
 				for _, b := range g.Blocks {
 					if ret, ok := b.Instrs[len(b.Instrs)-1].(*ssa.Return); ok {
@@ -192,6 +194,7 @@ func DependsOnVia(chain []*ssa.Call, v ssa.Value, enter func(*ssa.Function) bool
 						}
 					}
 				}
+				return false
 			}
 			for _, a := range x.Call.Args {
 				if rec(a, chain, depth+1) {
